@@ -48,9 +48,9 @@ def mc_nest(run, binders, checkk=1):
     """MC_Nest: the family of nested fixed points (every kind combination, bodies ranging over an enclosing value through a
     quantifier, self-supporting inner bodies): TLC checks Ev = Canon(Sem) and emits the truth tables for the replay"""
     d = fresh_dir(run.prop, "mc_nest%d" % binders)
-    names = ('CONSTANT NameSeq <- NS_aXY\nCONSTANT FixVars = {"X", "Y"}' if binders == 2
-             else 'CONSTANT NameSeq <- NS_aYXZ\nCONSTANT FixVars = {"X", "Y", "Z"}')
-    c = cfg({"NV": binders + 1, "Binders": binders, "Emit": True, "CheckK": checkk}, extra=names)
+    names = {1: NAMES3, 2: 'CONSTANT NameSeq <- NS_aXY\nCONSTANT FixVars = {"X", "Y"}',
+             3: 'CONSTANT NameSeq <- NS_aYXZ\nCONSTANT FixVars = {"X", "Y", "Z"}'}[binders]
+    c = cfg({"NV": {1: 3, 2: 3, 3: 4}[binders], "Binders": binders, "Emit": True, "CheckK": checkk}, extra=names)
     res = run_tlc("MC_Nest", c, d, timeout=3600)
     run.add_tlc("mc_nest%d" % binders, res)
     run.spec_must_hold("mc_nest%d" % binders, res)
@@ -261,17 +261,18 @@ def c08(run):
     run.extra.setdefault("s2i", {})["tokens"] = {k: summary[k] for k in ("sequences", "mismatches", "panics", "sentences", "accepted_by_code", "maxlen")}
     for s in summary["samples"]:
         run.sample({"direction": "spec->impl", "case": s})
-    report_syntax_mismatches(run, mism, {"C08"}, "tokens")
+    # a panic on a text is neither a rejection nor the prescribed tree: it is reported here as well as by C12
+    report_syntax_mismatches(run, mism, {"C08", "C12"}, "tokens")
     path, toks = mc_syntax(run, "chars", P if not t else 4, 1 if not t else 12, "mc_chars", timeout=7200)
     s2, mism2 = run_harness(["replay-chars", path])
     run.impl_traces += s2["strings"]
     run.evaluations += s2["strings"]
     run.extra["s2i"]["chars"] = {k: s2[k] for k in ("strings", "mismatches", "panics", "spec_rejects")}
-    report_syntax_mismatches(run, mism2, {"C08"}, "chars")
+    report_syntax_mismatches(run, mism2, {"C08", "C12"}, "chars")
     # printer / parser round trip on the formula builder + real parser on the rendered cases
     p3, cases, res = mc_lang(run, "mc_lang_d2", 2, "lang", True, 12 if t else 100, timeout=7200)
-    replay_lang(run, p3, "builder_d2", {"C08"})
-    st = record_texts(run, 20000 if t else 2000, {"C08"})
+    replay_lang(run, p3, "builder_d2", {"C08", "C12"})
+    st = record_texts(run, 20000 if t else 2000, {"C08", "C12"})
     run.nontrivial = summary["sentences"] + st["mutated"]
     run.exhaustive = True
     run.assumptions += ["characters outside the modelled alphabet (ASCII, e-acute, euro sign, arabic-indic digit three) are not generated"]
